@@ -528,4 +528,16 @@ def cropBox (v : Nat → Nat → Bool) (rows cols : Nat) : Option (Nat × Nat ×
   if left = 0 ∧ right = 0 ∧ top = 0 ∧ bottom = 0 then none
   else some (left, rows - right, top, cols - bottom)
 
+/-! ### the slice arithmetic of `Interferogram.crop` (integers; `left/right` = leading / trailing all-invalid ROWS,
+`top/bottom` = leading / trailing all-invalid COLUMNS, as the source names them) -/
+
+/-- NumPy's normalisation of one slice bound `v` on an axis of length `n` (step 1): negative counts from the end, clamp -/
+def normIdx (n v : Int) : Int := if v < 0 then max (n + v) 0 else min v n
+
+/-- the window `Interferogram.crop` must keep: rows `[left, rows - right)`, columns `[top, cols - bottom)` -/
+def cropRowLo (left _right _top _bottom _rows _cols : Int) : Int := left
+def cropRowHi (_left right _top _bottom rows _cols : Int) : Int := rows - right
+def cropColLo (_left _right top _bottom _rows _cols : Int) : Int := top
+def cropColHi (_left _right _top bottom _rows cols : Int) : Int := cols - bottom
+
 end Model.C12
